@@ -32,7 +32,7 @@ PROPERTY = "C14"
 LEVEL = "fault_enumeration"
 RULE = ("a case = history of 1..40 ops (register safe/unsafe with metadata None/set/list and uri text or URI object, remove by "
         "name/prefix/regex, set_metadata, lookup, list by prefix/regex/nothing, yplookup all/any, count, reopen) over names/tags "
-        "from the alphabet {a A b B _ % . * [ \\ e-acute E-acute sharp-s han} (length 0..4), Pyro.NameServer and look-alikes; names come "
+        "from the alphabet {a A b B _ % . * [ \\ e-acute E-acute sharp-s han U+1F600 U+FFFF U+FFFD U+10FFFF} (length 0..4), Pyro.NameServer and look-alikes; names come "
         "from a small per-case pool of base names plus case-swapped / '_' / '%' variants so that they collide; mutating ops "
         "marked inject are executed once per sqlite statement they issue (COMMIT included) with that statement failing. "
         "Part 'enum' enumerates (setup store) x (every shape of mutating op, inject on) x (fixed observers incl. reopen); part "
@@ -51,7 +51,7 @@ ASSUMPTIONS = [
 ]
 
 NS_NAME = "Pyro.NameServer"
-ALPHA = "aAbB_%.*[\\\u00e9\u00c9\u00df\u6f22"
+ALPHA = "aAbB_%.*[\\\u00e9\u00c9\u00df\u6f22\U0001f600\uffff\ufffd\U0010ffff"      # (incl. characters beyond the BMP and the highest code points)
 URIS = ["PYRO:obj@localhost:4444", "PYRO:o2@127.0.0.1:9", "PYRO:x_%@[::1]:55", "PYRONAME:some.name", "PYRO:Pyro.NameServer@localhost:9090",
         "PYRO:\u00e9@./u:/var/tmp/s.sock"]
 SPECIAL_NAMES = [NS_NAME, NS_NAME, "pyro.nameserver", "Pyro_NameServer", "Pyro.NameServer2", "Pyro.", "Pyro%", "PYRO.NAMESERVER"]
